@@ -694,6 +694,8 @@ class Engine:
             self.inconclusive.append('unsupported: %s at %s' % (e, where))
         finally:
             if self.sched is not None:
+                self.stats.sched_switches = getattr(self.stats, 'sched_switches', 0) + self.sched.switches
+                self.stats.goroutines = getattr(self.stats, 'goroutines', 0) + len(self.sched.gors)
                 self.sched.kill_all()
                 self.sched = None
             self.rollback()
